@@ -51,3 +51,7 @@ CLAIMS["C13"] = (
  "crash monitor: recover() around every public entry point in sacrificial worker processes (address-space limit, per-case journal attributing fatal errors), Go crash markers on the real binaries' stderr; hostile structured and damaged-text workloads",
  "Held on every executed input: ~60k structurally valid diffs with arbitrary paths applied to a 40-document panel (1.2M Patch calls), all single-element hostile paths x contexts exhaustively, damaged jd / JSON Patch / merge / JSON / YAML texts read-applied-rendered, hostile YAML, and ~2.7k CLI runs (status in {0,1,2}, status 2 whenever the library rejects, no stack trace).",
  TB + "; a finite sample of byte strings: absence of crashes on unexplored inputs is not claimed", "DESIGN.md 5.13")
+CLAIMS["C15"] = (
+ "runtime monitors: call-history oracle (repeatability of outputs, type-accurate deep dump of arguments before/after every read-only call, patch-after-render), Go race detector as a purity sanitizer on shared values, recomputation across repetitions and fresh processes",
+ "Held on every executed history (25k random sequences of 8 read-only calls, all 120 orderings of the five renderers on a 50-subject panel), on 12k concurrent goroutine-call batches under -race (0 reports), and on repeated fresh computations in-process (12x) and across processes (4x) incl. diffs read from multi-key merge patches.",
+ TB + "; the race detector sees only writes that execute on generated subjects", "DESIGN.md 5.15")
